@@ -241,6 +241,23 @@ def tour(rng, n_cases, check, note):
             if hasattr(r, "layers"):
                 check(name, r, None)
                 note("ok:" + name)
+    # cat arrows built directly: the constructor refuses boxes that do not chain from dom to cod,
+    # the empty list of boxes included
+    for _ in range(n_cases):
+        obs = [cat.Ob("o%d" % i) for i in range(3)]
+        a, b, c = (rng.choice(obs) for _ in range(3))
+        f, g = cat.Box("a0", a, b), cat.Box("a1", b, c)
+        for name, args, ok in [("cat.Arrow(x, y, [])", (a, b, []), a == b), ("cat.Arrow(a, c, [f, g])", (a, c, [f, g]), True),
+                               ("cat.Arrow(a, b, [f, g])", (a, b, [f, g]), b == c),
+                               ("cat.Arrow(b, c, [f, g])", (b, c, [f, g]), a == b)]:
+            try:
+                r = cat.Arrow(*args)
+            except Exception:   # noqa
+                note("refused:" + name)
+                continue
+            if not ok:
+                check(name, "cat-arrow-ill-typed: %s accepted although the boxes do not chain from dom to cod" % name, None)
+            note("ok:" + name)
     # cat arrows: typing of plain arrows (no layers): dom/cod chain
     for _ in range(n_cases):
         d = adiag()
